@@ -11,9 +11,6 @@ set_option linter.unusedSimpArgs false
 
 def closedCbs (l : List Ev) : Nat := (l.filter Ev.isClosed).length
 def closeOps (l : List Tr) : Nat := (l.filter (Tr.isOp "close")).length
-def pendClosed : List Instr → Nat
-  | .callScr _ .closed _ _ :: _ => 1
-  | _ => 0
 
 theorem closedCbs_cbLog (l : List Ev) : closedCbs (cbLog l) = closedCbs l := by
   unfold closedCbs cbLog
